@@ -242,7 +242,7 @@ func actionsDeep(stmts []ast.Stmt, prefix string) []string {
 }
 
 // extraGens: further Gen files, added as properties are built.
-func extraGens(root, st *pkg) []*genFile { return []*genFile{genRecv(root), genSession(root), genAuth(root, st), genComponent(root, st)} }
+func extraGens(root, st *pkg) []*genFile { return []*genFile{genRecv(root), genSession(root), genAuth(root, st), genComponent(root, st), genKeepalive(root)} }
 
 // assignsTo lists, in source order, the right-hand sides assigned to the selector `sel` (e.g. "t.isSecure") in fn,
 // interleaved with the calls named in `marks` (so that the order "Handshake, isSecure=false, VerifyHostname,
@@ -285,5 +285,14 @@ func genSession(root *pkg) *genFile {
 	g.def("transportStartTLSSecure", "List String",
 		leanStrList(assignsTo(root.fn("XMPPTransport", "StartTLS"), "t.isSecure", map[string]bool{"tlsConn.Handshake": true, "tlsConn.VerifyHostname": true})),
 		"assignments to isSecure in XMPPTransport.StartTLS, relative to Handshake and VerifyHostname")
+	return g
+}
+
+func genKeepalive(root *pkg) *genFile {
+	g := newGen("Keepalive")
+	g.def("keepalive", "List String", leanStrList(fnActions(root.fn("", "keepalive"))), "flattened actions of keepalive: the select arms")
+	g.def("clientConnect", "List String", leanStrList(fnActions(root.fn("Client", "Connect"))), "flattened actions of Client.Connect (which goroutines it starts)")
+	g.def("clientResume", "List String", leanStrList(fnActions(root.fn("Client", "Resume"))), "flattened actions of Client.Resume")
+	g.def("xmppPing", "List String", leanStrList(fnActions(root.fn("XMPPTransport", "Ping"))), "flattened actions of XMPPTransport.Ping")
 	return g
 }
